@@ -6,6 +6,8 @@ import S2T.Lemmas.TablesHtml
 import S2T.Lemmas.TablesEpub
 import S2T.Gen.Tables
 import S2T.Gen.HtmlSkip
+import S2T.Props.C13_Rtf
+import S2T.Props.C13_Slide
 /-!
 # C13 — tables come back with their shape and every cell in place
 
